@@ -38,11 +38,11 @@ Definition dfs_tree (g : graph) : list (Z * Z) :=
   | Ok start => match dfs_edges g start with Ok t => t | Err _ => [] end
   | Err _ => []
   end.
-(** class 1: a BRANCH edge of the DFS tree (a tree edge to a child that is not the first child of
+(** (repaired) former class 1: a BRANCH edge of the DFS tree (a tree edge to a child that is not the first child of
     its parent) has an order other than 1: the writer puts the symbol inside the parenthesis *)
 Definition cls_branch_order (g : graph) : bool :=
   existsb (fun ks => existsb (fun c => order_not_single g (fst ks, c)) (tl (snd ks))) (succ_of (dfs_tree g)).
-(** class 2: an edge outside the DFS tree (ring-closing edge) has an order other than 1:
+(** (repaired) former class 2: an edge outside the DFS tree (ring-closing edge) has an order other than 1:
     write_graph(smiles_format=False) never writes it *)
 Definition cls_ring_order (g : graph) : bool :=
   existsb (order_not_single g) (nontree_edges g (dfs_tree g)).
@@ -59,9 +59,11 @@ Definition cls_pct_marker (g : graph) (tr : list (Z * Z)) : bool :=
   | Ok r => existsb (fun km => pct_then_digit (snd km)) (r_mtrace r)
   | Err _ => false
   end.
-(** 0 = outside every class *)
+(** 0 = outside every class.  Classes 1 (branch_edge_order) and 2 (ring_edge_order) were REPAIRED in /repo
+    (fix commits be4ff6e and dd9a0c2): their predicates above are kept only to describe the corpus witnesses;
+    they excuse nothing any more.  Class 3 is still open. *)
 Definition class_C07 (g : graph) (tr : list (Z * Z)) : nat :=
-  if cls_branch_order g then 1%nat else if cls_ring_order g then 2%nat else if cls_pct_marker g tr then 3%nat else 0%nat.
+  if cls_pct_marker g tr then 3%nat else 0%nat.
 
 (** ------------------------------------------------------------------ isomorphism by witness *)
 (** what is compared: names of nodes, integer orders of edges *)
